@@ -1,7 +1,7 @@
 """C13 — a piano roll shows exactly the given notes, in their cells, with their velocity."""
 import ast
 
-from ..core.program import norm, own_nodes, own_statements
+from ..core.program import pos, norm, own_nodes, own_statements
 from ..core.world import world
 from ..rules import arrays as A
 from ..rules import generic as G
@@ -46,16 +46,16 @@ def rule_F9a(ctx):
              and s.value.args and isinstance(s.value.args[0], ast.Name) and s.value.args[0].id in cols]
     ctx.require(len(sorts) == 1, "F9a", f.qname, "the onset argsort was not found")
     idx = norm(sorts[0].targets[0])
-    sort_line = sorts[0].lineno
+    sort_line = max(pos(x) for x in ast.walk(sorts[0]))  # the end of the sort statement in document order
     for c in sorted(cols):
-        reindex = [s for s in stmts if isinstance(s, ast.Assign) and norm(s.targets[0]) == c and norm(s.value) == f"{c}[{idx}]" and s.lineno > sort_line]
-        uses = [n for n in ast.walk(f.node) if isinstance(n, ast.Name) and n.id == c and isinstance(n.ctx, ast.Load) and n.lineno > sort_line
+        reindex = [s for s in stmts if isinstance(s, ast.Assign) and norm(s.targets[0]) == c and norm(s.value) == f"{c}[{idx}]" and pos(s) > sort_line]
+        uses = [n for n in ast.walk(f.node) if isinstance(n, ast.Name) and n.id == c and isinstance(n.ctx, ast.Load) and pos(n) > sort_line
                 and not any(n is x for r in reindex for x in ast.walk(r))]
         if not uses:
             ctx.ok("F9a", f"{f.qname}: `{c}` not used after the sort")
             continue
-        first_use = min(u.lineno for u in uses)
-        ok = len(reindex) == 1 and reindex[0].lineno < first_use
+        first_use = min(pos(u) for u in uses)
+        ok = len(reindex) == 1 and pos(reindex[0]) < first_use
         ctx.check(ok, "F9a", f"{f.qname}: `{c}` co-permuted", func=f, node=uses[0], construct=f"not-permuted:{c}",
                   msg=f"rows are sorted with `{idx} = {norm(sorts[0].value)}` and the other columns are re-indexed, but `{c}` "
                       f"is used afterwards (line {first_use}) without `{c} = {c}[{idx}]`: for input rows that are not already "
@@ -80,14 +80,14 @@ def rule_view(ctx):
     for s in stmts:
         if isinstance(s, ast.Assign) and len(s.targets) == 1 and isinstance(s.targets[0], ast.Name) and isinstance(s.value, ast.Subscript) \
                 and norm(s.value.value) == base and isinstance(s.value.slice, ast.Tuple):
-            views[s.targets[0].id] = s.lineno
+            views[s.targets[0].id] = pos(s)
     n = 0
     for s in stmts:
         if isinstance(s, ast.AugAssign) and isinstance(s.target, ast.Name) and s.target.id in views:
             n += 1
             c = s.target.id
             copied = [a for a in stmts if isinstance(a, ast.Assign) and norm(a.targets[0]) == c and isinstance(a.value, ast.Subscript)
-                      and norm(a.value.value) == c and isinstance(a.value.slice, ast.Name) and views[c] < a.lineno < s.lineno]
+                      and norm(a.value.value) == c and isinstance(a.value.slice, ast.Name) and views[c] < pos(a) < pos(s)]
             ctx.check(bool(copied), "VIEW", f"{f.qname}: `{norm(s)}` on a copy", func=f, node=s, construct=f"write-through:{c}",
                       msg=f"`{norm(s)}` modifies `{c}` in place while it is still a view of `{base}`: the caller's array changes")
     ctx.floor("VIEW", "in-place column updates", n, 2)
@@ -124,7 +124,7 @@ def rule_plumbing(ctx):
     folds = [n for n in own_nodes(pc.node) if isinstance(n, ast.AugAssign) and isinstance(n.target, ast.Subscript) and isinstance(n.op, ast.Add)
              and isinstance(getattr(n, "_parent", None), ast.For)]
     bins = [n for n in own_nodes(pc.node) if isinstance(n, ast.If) and norm(n.test) == "binary"]
-    ctx.check(bool(folds) and bool(bins) and bins[0].lineno > folds[0].lineno, "F4d-plumb", "binary applied after the fold", func=pc,
+    ctx.check(bool(folds) and bool(bins) and pos(bins[0]) > pos(folds[0]), "F4d-plumb", "binary applied after the fold", func=pc,
               construct="pc-binary-order", msg="`binary` must be applied to the folded roll (max over octaves would otherwise be lost)")
 
 
